@@ -7,11 +7,13 @@ NAN = [-1, -1, -1]
 
 
 def key64(x):
-    if x != x:
-        return None
-    if x == 0.0:
-        x = 0.0   # -0.0 -> +0.0
+    # everything is decided on the bit pattern: the process under test may run with denormals flushed to zero, in which case
+    # float comparisons and float -> Fraction conversions of the harness itself would be blind to denormals
     b = struct.unpack("<Q", struct.pack("<d", x))[0]
+    if (b >> 52) & 0x7FF == 0x7FF and b & ((1 << 52) - 1):
+        return None                         # NaN
+    if b == 0x8000000000000000:
+        b = 0                               # -0.0 -> +0.0
     return b ^ 0xFFFFFFFFFFFFFFFF if b >> 63 else b | 0x8000000000000000
 
 
@@ -40,7 +42,27 @@ def ulp(x):
 
 
 def exact(x):
-    return Fraction(x)
+    """The exact value of a finite double as a Fraction, from its bit pattern (no floating-point operation involved)."""
+    b = struct.unpack("<Q", struct.pack("<d", x))[0]
+    sign = -1 if b >> 63 else 1
+    e = (b >> 52) & 0x7FF
+    m = b & ((1 << 52) - 1)
+    if e == 0x7FF:
+        raise OverflowError("not finite")
+    if e == 0:
+        return Fraction(sign * m, 2 ** 1074)
+    return Fraction(sign * ((1 << 52) | m)) * Fraction(2) ** (e - 1075)
+
+
+def ulp_exact(v):
+    """Spacing of doubles at the magnitude of the rational v (2^-1074 in the denormal range), computed on integers."""
+    v = abs(v)
+    if v == 0:
+        return Fraction(1, 2 ** 1074)
+    e = v.numerator.bit_length() - v.denominator.bit_length()
+    if Fraction(2) ** e > v:
+        e -= 1
+    return Fraction(2) ** (max(e, -1022) - 52)
 
 
 def pred(x):
